@@ -162,7 +162,62 @@ def run(ctx):
             if vals["distance(only_ub)"] != "inf" and not agree(vals["distance(only_ub)"], exp_ub):
                 res.mismatches.append({"case": case, "route": "distance(only_ub)", "python": vals["distance(only_ub)"],
                                        "model_ed": exp_ub})
+    matrix_route(ctx, res)
     return res
+
+
+def matrix_route(ctx, res):
+    """the C distance-matrix routines (serial, pointer and matrix containers, 1-D / n-D) against the Python single-pair
+    routine, with per-series (asymmetric) psi tuples and unequal lengths"""
+    import numpy as np
+    from dtaidistance import dtw, dtw_ndim
+    rng = ctx.rng
+    for _ in range(400 if ctx.thorough else 60):
+        nd = rng.choice([1, 1, 2])
+        n = rng.randint(2, 5)
+        equal = rng.random() < 0.3
+        L = rng.randint(2, 7)
+        lens = [L if equal else rng.randint(2, 8) for _ in range(n)]
+        series = [[rng.randint(-3, 3) for _ in range(l * nd)] for l in lens]
+        psi = rng.choice([None, 1, (1, 0, 0, 1), (0, 1, 1, 0), (2, 0, 0, 0), (0, 0, 0, 2), (1, 2, 0, 0), (0, 0, 2, 1)])
+        st = {"window": rng.choice([None, 1, 2, 3]), "penalty": rng.choice([None, 1, 2]), "psi": psi,
+              "max_step": rng.choice([None, None, 3]), "inner": "sq"}
+        if psi is not None:
+            bad = False
+            for a in series:
+                for b in series:
+                    cs = {"s1": a, "s2": b, "ndim": nd, "psi": psi}
+                    if not dc.psi_in_range(cs) or dc.degenerate_psi(cs):
+                        bad = True
+            if bad:
+                st["psi"] = None
+        kw = dc.py_kwargs(st)
+        mod = dtw if nd == 1 else dtw_ndim
+        extra = {} if nd == 1 else {"ndim": nd}
+        arrs = [impl.to_container(x, "numpy", nd) for x in series]
+        conts = {"list": arrs}
+        if equal:
+            conts["matrix"] = np.array(arrs)
+        want = [impl.canon(mod.distance(arrs[r], arrs[c], **kw)) for r in range(n) for c in range(r + 1, n)]
+        res.evaluations += 1
+        res.hit("matrix_route")
+        if isinstance(st["psi"], tuple):
+            res.hit("matrix_route_asymmetric_psi")
+        res.nontrivial.add(repr(("matrix", series, sorted((k, repr(v)) for k, v in st.items()))))
+        for cname, data in conts.items():
+            for route, rk in (("serial", dict(parallel=False)), ("openmp", dict(parallel=True))):
+                try:
+                    got = [impl.canon(x) for x in mod.distance_matrix(data, compact=True, use_c=True, **rk, **extra, **kw)]
+                except BaseException as ex:
+                    if isinstance(ex, (KeyboardInterrupt, SystemExit)):
+                        raise
+                    got = impl.exc_name(ex)
+                if got != want and not (isinstance(got, list) and len(got) == len(want) and
+                                        all(agree(a, b) for a, b in zip(got, want))):
+                    res.violations.append({"clause": "C distance-matrix routine == Python single-pair distances",
+                                           "route": route, "container": cname, "series": series, "ndim": nd,
+                                           "settings": {k: (list(v) if isinstance(v, tuple) else v) for k, v in st.items()},
+                                           "c": got, "python": want})
 
 
 def agree(a, b, ulps=4):
